@@ -1,18 +1,21 @@
 #!/bin/bash
-# usage: tools_mut.sh <patch.diff> <ID> [<ID>...]   -- apply patch to /repo, run quick checks, revert
+# usage: tools_mut.sh <patch.diff> <ID> [<ID>...]
+# applies the patch in a scratch worktree of /repo's HEAD (never in /repo), runs the quick checks against it, removes the worktree
 set -u
 P=$1; shift
-cd /repo || exit 2
-if ! git diff --quiet; then echo "REPO DIRTY - abort"; exit 2; fi
+TAG=$(echo "$P" | md5sum | cut -c1-8)
+WT=/tmp/mutwt_$TAG
+cd /repo && git worktree add -q --detach $WT HEAD || exit 2
+trap 'cd /repo && git worktree remove --force '$WT' 2>/dev/null' EXIT
+cd $WT
 if ! git apply --check "$P" 2>/dev/null; then echo "PATCH DOES NOT APPLY: $P"; exit 3; fi
 git apply "$P"
-trap 'cd /repo && git checkout -- . ' EXIT
 cd /verif
+mkdir -p /tmp/mutlog
 for id in "$@"; do
-  mkdir -p /tmp/mutlog
-  L=/tmp/mutlog/$(basename $(dirname $P))_$(basename $(dirname $(dirname $P)))_$id.log
-  timeout ${MUT_TIMEOUT:-1800} ./check $id ${MUT_TIER:-quick} > $L 2>&1
+  L=/tmp/mutlog/${TAG}_$id.log
+  VF_REPO_SRC=$WT/src timeout ${MUT_TIMEOUT:-2400} ./check $id ${MUT_TIER:-quick} > $L 2>&1
   rc=$?
   nv=$(grep -c "^VIOLATION" $L)
-  echo "$id rc=$rc violations=$nv $(grep -m1 -A1 '^VIOLATION' $L | tail -1 | cut -c1-220)"
+  echo "$id rc=$rc violations=$nv log=$L $(grep -m1 -A1 '^VIOLATION' $L | tail -1 | cut -c1-200)"
 done
